@@ -219,6 +219,17 @@ def expr_str(e):
     raise ValueError(e)
 
 
+def _drop_history(src, res):
+    """The string-form entry points append a provenance note to the global
+    attribute 'history'; it is not part of the result's content."""
+    if res is not src:
+        if hasattr(src, 'history'):
+            res.history = src.history
+        elif 'history' in res.ncattrs():
+            delattr(res, 'history')
+    return res
+
+
 def call(objs, st, tmp):
     """Execute one step; returns the new object or None (queries)."""
     act, a = st['act'], st.get('args', {})
@@ -226,6 +237,18 @@ def call(objs, st, tmp):
     others = [objs[i - 1] for i in st.get('others', [])]
     if act == 'copy':
         return f.copy()
+    if act == 'slice' and a.get('via') == 'slice_dim':
+        # the string form used by the command line tools: 'dim,start,stop,step'
+        from PseudoNetCDF.core._functions import slice_dim
+        sl = a['sels'][0]
+        s_ = sl['s']
+        if s_['k'] == 'int':
+            sdef = '%s,%d' % (sl['d'], s_['v'])
+        else:
+            parts = [str(v) if h else 'None'
+                     for h, v in zip(s_['h'], s_['v'])]
+            sdef = '%s,%s' % (sl['d'], ','.join(parts))
+        return _drop_history(f, slice_dim(f, sdef, fuzzydim=False))
     if act == 'slice':
         kw = {}
         for s in a['sels']:
@@ -442,6 +465,16 @@ def _gen_step(rnd, sh, src, shadows, focus=None, strict=False):
                 s['s']['v'] = [rnd.randint(-n, n - 1) if n > 0 else 0
                                for _ in range(m)]
         a['newdim'] = 'POINTS'
+        # the string form slice_dim(f, 'dim,start,stop,step') of a single
+        # integer / slice selection
+        if len(a['sels']) == 1 and a['sels'][0]['s']['k'] in ('int', 'slice') \
+                and rnd.random() < 0.4:
+            s0 = a['sels'][0]
+            n0 = sh.dims[s0['d']]
+            nonempty = s0['s']['k'] == 'int' or len(range(*py_sel(
+                s0['s']).indices(n0))) > 0
+            if nonempty:    # (an empty selection is not what the form is for)
+                a['via'] = 'slice_dim'
     elif act == 'apply':
         nd = rnd.randint(1, min(3, len(dims)))
         ds = rnd.sample(dims, nd)
